@@ -131,6 +131,66 @@ func (e *Engine) LoadContracts() error {
 		}
 	}
 	sort.Strings(e.missingFuncs)
+	return e.checkGlobalAssumptions()
+}
+
+// checkGlobalAssumptions: a `global` fact is only admissible for package-level
+// variables that no function other than the package initialiser writes.
+func (e *Engine) checkGlobalAssumptions() error {
+	for _, ga := range e.cs.Globals {
+		tp := e.tpkgs[ga.PkgPath]
+		if tp == nil {
+			continue
+		}
+		var names []string
+		var walk func(n *Node)
+		walk = func(n *Node) {
+			if n == nil {
+				return
+			}
+			if n.Kind == "ident" {
+				if _, ok := tp.Scope().Lookup(n.Name).(*types.Var); ok {
+					names = append(names, n.Name)
+				}
+			}
+			for _, k := range n.Kids {
+				walk(k)
+			}
+		}
+		walk(ga.Expr)
+		for name, fn := range e.funcs {
+			if fn.Pkg == nil || fn.Pkg.Pkg != tp || fn.Name() == "init" || strings.HasPrefix(fn.Name(), "init#") {
+				continue
+			}
+			for _, b := range fn.Blocks {
+				for _, ins := range b.Instrs {
+					st, ok := ins.(*ssa.Store)
+					if !ok {
+						continue
+					}
+					root := st.Addr
+					for {
+						if fa, ok := root.(*ssa.FieldAddr); ok {
+							root = fa.X
+							continue
+						}
+						if ia, ok := root.(*ssa.IndexAddr); ok {
+							root = ia.X
+							continue
+						}
+						break
+					}
+					if gl, ok := root.(*ssa.Global); ok {
+						for _, n := range names {
+							if gl.Name() == n {
+								return fmt.Errorf("global assumption %q is not admissible: %s writes %s", ga.Src, shortKey(name), n)
+							}
+						}
+					}
+				}
+			}
+		}
+	}
 	return nil
 }
 
